@@ -37,6 +37,10 @@ def run(chk):
     # model: Window for a 16-bit PeriodType around the old limit and at the top
     mc = cfg_file("c20_window.cfg", "CONSTANTS\n  PMAX = 65535\n  Caps <- WideCaps\n  FullIter <- NoCaps\n  EmitCaps <- NoCaps\nSPECIFICATION Spec\n"
                   "INVARIANTS TypeOK PushInv ObserverInv\nCHECK_DEADLOCK FALSE\n")
+    # the ring arithmetic of Window for an ARBITRARY PeriodType width (PMAX any natural >= 3, any capacity): TLAPS lemmas over
+    # the same definitions (WindowCore.tla) that MC_Window checks exhaustively for the 8-bit type
+    nob = tlaps("Window_proofs", ["WindowCore", "Period"])
+    chk.stage("TLAPS:Window_proofs", obligations_proved=nob, what="NewRing, PosInRange, SliceIndexRing, PushRing, EndsRing, IterRing for every PMAX and capacity")
     r = tlc("MC_Window", mc, workers=12, timeout=3000)
     if r.violation:
         chk.finding("Window:model16:" + r.violation, {"stage": "MC", "counterexample": r.cex})
